@@ -280,11 +280,16 @@ func c15Pairs(c *Case, idx int) {
 // ---- law on the implementation alone: contains(v) agrees with == on every kind pair
 
 func c15ContainsLaw(c *Case) {
-	vals := []string{"0", "1", "-1", "2.5", "'1'", "'a'", "''", "'10'", "true", "false", "null", "[]", "[1]", "{}", "{ k: 1 }", "'B'", "10"}
+	vals := []string{"0", "1", "-1", "2.5", "'1'", "'a'", "''", "'10'", "true", "false", "null", "[]", "[1]", "{}", "{ k: 1 }", "'B'", "10", "neverset", "alsounset"}
 	for _, e := range vals {
 		for _, v := range vals {
 			p1 := fmt.Sprintf("BEGIN { a = [%s]; print a.contains(%s) }", e, v)
 			p2 := fmt.Sprintf("BEGIN { a = [%s]; print (%s) == a[0] }", e, v)
+			if e == "neverset" && v == "0" {
+				// (several elements: the answer is that of == applied to each in order)
+				p1 = "BEGIN { a = ['', 0, false, neverset]; print a.contains(alsounset), a.contains(0) }"
+				p2 = "BEGIN { a = ['', 0, false, neverset]; print alsounset == a[0] || alsounset == a[1] || alsounset == a[2] || alsounset == a[3], 0 == a[0] || 0 == a[1] }"
+			}
 			l1 := RunLib(p1, nil, nil, RunOpts{})
 			l2 := RunLib(p2, nil, nil, RunOpts{})
 			c.NonTrivial("law:" + e + "/" + v)
@@ -294,6 +299,28 @@ func c15ContainsLaw(c *Case) {
 			} else {
 				c.Violation(fmt.Sprintf("[%s].contains(%s) gives %s %q but %s == a[0] gives %s %q", e, v, l1.Class, strings.TrimSpace(string(l1.Stdout)), v, l2.Class, strings.TrimSpace(string(l2.Stdout))), nil,
 					map[string]any{"program1": p1, "program2": p2})
+			}
+		}
+	}
+	// an index past the end is past the end however large it is: whatever a read or a store at 2^62 does (null,
+	// or a refusal), the same happens at 2^63, 2^64 and 1e23; and likewise before the start
+	for _, base := range []string{"[]", "[1, 2, 3]", "$.rows", "$.rows[4]"} {
+		for _, pair := range [][2]string{{"4611686018427387904", "9223372036854775807"}, {"4611686018427387904", "9223372036854775808"}, {"4611686018427387904", "18446744073709551615"}, {"4611686018427387904", "18446744073709551616"},
+			{"4611686018427387904", "100000000000000000000000"}, {"-4611686018427387904", "-9223372036854775808"}, {"-4611686018427387904", "-9223372036854775809"}, {"-4611686018427387904", "-100000000000000000000000"}} {
+			for _, form := range []string{"{ a = %s; print 'before'; v = a[%s]; print 'read', v, a.length() }", "{ a = %s; print 'before'; a[%s] = 1; print 'stored', a.length() }", "{ a = %s; print 'before'; print a[%s] is null, a[%s].k.j, a.length() }"} {
+				in := []byte(`{"rows": [[1, 2], [3, 4], [5], [], [6, 7, 8]]}`)
+				mk := func(ix string) *Outcome {
+					return RunLib(fmt.Sprintf(strings.Replace(form, "a[%s] is null, a[%s]", "a[%[2]s] is null, a[%[2]s]", 1), base, ix), []InFile{{Name: "in.json", Data: in}}, nil, RunOpts{})
+				}
+				l1, l2 := mk(pair[0]), mk(pair[1])
+				c.NonTrivial("hugeindex:" + base + pair[1] + form)
+				c.Count("huge_index_pairs")
+				if l1.Class == l2.Class && string(l1.Stdout) == string(l2.Stdout) && l1.Msg == l2.Msg && (l1.Class == "ok" || l1.Class == "runtime") {
+					c.Held()
+				} else {
+					c.Violation(fmt.Sprintf("index %s on %s: %s %q (%s), but index %s: %s %q (%s)", pair[0], base, l1.Class, clip(string(l1.Stdout), 80), l1.Msg, pair[1], l2.Class, clip(string(l2.Stdout), 80), l2.Msg), nil,
+						map[string]any{"form": form, "base": base, "index1": pair[0], "index2": pair[1]})
+				}
 			}
 		}
 	}
@@ -493,7 +520,7 @@ func c15Run(c *Case) {
 func init() {
 	register(&Prop{
 		ID: "C15", Level: "exploration",
-		Rule:          "sampled histories of 5-40 operations (push pop popfirst index-read index-write length contains sort, nested method calls inside arguments) over two arrays held by a variable, $-path, object member or array element, in half of the histories the first one also by a second name through which a third of the operations go (a length change is seen through every reference), element values of every kind; after every operation the program prints the result and json()/length() of both arrays, compared with an ideal-list model; candidate steps leaving the stated semantics are discarded with the model. Enumerated: every ordered pair of 13 operations on arrays of length 0,1,2,5 (676 programs); contains(v) vs v == a[0] on 17x17 value pairs (law on the implementation alone); 16 programs that grow arrays of the input document which are siblings in a parent array (rows of a table, cells of a grid); 8 sorts of strings that spell numbers; contains() on arrays of 31-100 strings / numbers before and after stores that keep the length (24 programs); sort() of 0-3 elements gives a new array (24 programs storing / pushing / popping through the result and the receiver afterwards); 40 sorts of 13-52 elements with equal keys of different kinds (stable). Non-trivial = history with a removal followed by an append/extension, or a nested call; distinct by program text.",
+		Rule:          "sampled histories of 5-40 operations (push pop popfirst index-read index-write length contains sort, nested method calls inside arguments) over two arrays held by a variable, $-path, object member or array element, in half of the histories the first one also by a second name through which a third of the operations go (a length change is seen through every reference), element values of every kind; after every operation the program prints the result and json()/length() of both arrays, compared with an ideal-list model; candidate steps leaving the stated semantics are discarded with the model. Enumerated: every ordered pair of 13 operations on arrays of length 0,1,2,5 (676 programs); contains(v) vs v == a[0] on 17x17 value pairs (law on the implementation alone); 16 programs that grow arrays of the input document which are siblings in a parent array (rows of a table, cells of a grid); 8 sorts of strings that spell numbers; contains() on arrays of 31-100 strings / numbers before and after stores that keep the length (24 programs); sort() of 0-3 elements gives a new array (24 programs storing / pushing / popping through the result and the receiver afterwards); 40 sorts of 13-52 elements with equal keys of different kinds (stable). Non-trivial = history with a removal followed by an append/extension, or a nested call; distinct by program text. Laws on the implementation alone: contains(v) == (v == a[0]) over 19 x 19 values incl. two unset names; 96 pairs of huge indices (what a read or store does at 2^62 it also does at 2^63, 2^64, 1e23; likewise before the start) on literals and document arrays.",
 		NumCases:      c15Cases,
 		Run:           c15Run,
 		MinConclusive: func(tier string) int { return 3000 },
